@@ -135,6 +135,8 @@ type kmsg struct {
 	hops       int // C19: number of re-serialisations this content went through
 	tainted    bool
 	spans      [2]ispan // real index spans of a tainted producer (positive, negative)
+	// live: the message object ToProto handed out, kept until delivery (a snapshot, whatever the producer does next)
+	live *sketchpb.DDSketch
 }
 
 type fleetExec struct {
@@ -636,6 +638,7 @@ func (x *fleetExec) send(e engine.Event, nd *knode, sig string) {
 		}
 		m.data = b
 		m.hasMapping = true
+		m.live = pb
 	case "pbstream":
 		w := &simWriter{x: x, sig: sig}
 		x.lib("EncodeProto", sig, func() { plainOf(nd.real).EncodeProto(w) })
@@ -834,6 +837,10 @@ func (x *fleetExec) deliver(e engine.Event, nd *knode, sig string) bool {
 			pb := &sketchpb.DDSketch{}
 			if err := proto.Unmarshal(m.data, pb); err != nil {
 				x.fail("proto-unmarshal", sig, "bytes produced by the sketch do not unmarshal: "+err.Error(), "valid protobuf", fmt.Sprintf("%x", m.data))
+			}
+			if m.live != nil && int(e.J)%2 == 0 {
+				pb = m.live // the object itself travelled (in-process hand-over), not its bytes
+				x.st.Probe("delivered-live-proto-object")
 			}
 			x.lib("FromProtoWithStoreProvider", sig, func() {
 				var err error
